@@ -220,6 +220,13 @@ func c07Body(r *simcore.Run) {
 		r.Violation("sync", "", "Sync on the replica failed: %v", err)
 	}
 	rn, ralh := rep.st.CommittedAlh()
+	// what the replica holds is compared first: an altered message can be applied
+	// although its ReplicateTx call returned an error (precommitted, then the wait
+	// for the commit timed out), and a diverged transaction is what keeps the
+	// replica from advancing
+	for id := uint64(1); id <= rn && id <= n; id++ {
+		c07Compare(r, p, rep, id, "final")
+	}
 	if rn != n {
 		r.Violation("replica-behind", "", "after all faults stopped the replica holds %d of the primary's %d transactions", rn, n)
 	}
